@@ -265,6 +265,19 @@ def staticBranch (unq : Str → Str) (i : StaticIn) : Str :=
 def containedCheck (normdir normfile : Str) : Bool :=
   normfile == normdir || startsWith normfile (rstripSlash normdir ++ ['/'])
 
+/-- The part of `staticdir` after the containment test: `_attempt(filename)`, then the index
+    fallback `_attempt(join(filename, index))`. -/
+def serveChecked (fs : Str → Kind) (filename index : Str) : Result :=
+  match attempt fs filename with
+  | .valueError => ⟨.valueError, []⟩
+  | .served acc => ⟨.served filename, acc⟩
+  | .notFound acc =>
+    if index = [] then ⟨.notHandled, acc⟩
+    else match attempt fs (join filename index) with
+      | .valueError => ⟨.valueError, acc⟩
+      | .served acc2 => ⟨.served (join filename index), acc ++ acc2⟩
+      | .notFound acc2 => ⟨.notHandled, acc ++ acc2⟩
+
 /-- `staticdir(section, dir, root, match, content_types, index)`. -/
 def staticdir (unq : Str → Str) (fs : Str → Kind) (i : StaticIn) : Result :=
   if i.method ≠ strGET ∧ i.method ≠ strHEAD then ⟨.passThrough, []⟩
@@ -274,15 +287,7 @@ def staticdir (unq : Str → Str) (fs : Str → Kind) (i : StaticIn) : Result :=
     | some dir =>
       let filename := join dir (staticBranch unq i)
       if containedCheck (normpath dir) (normpath filename) = false then ⟨.forbidden, []⟩
-      else match attempt fs filename with
-        | .valueError => ⟨.valueError, []⟩
-        | .served acc => ⟨.served filename, acc⟩
-        | .notFound acc =>
-          if i.index = [] then ⟨.notHandled, acc⟩
-          else match attempt fs (join filename i.index) with
-            | .valueError => ⟨.valueError, acc⟩
-            | .served acc2 => ⟨.served (join filename i.index), acc ++ acc2⟩
-            | .notFound acc2 => ⟨.notHandled, acc ++ acc2⟩
+      else serveChecked fs filename i.index
 
 /-- The pre-repair test (`normfile.startswith(normdir)`), kept to show what a regression to
     it would break. -/
